@@ -26,6 +26,10 @@ FaultKinds == {"rpc-error", "malformed", "wrong-id", "close-before", "close-afte
                (* other shapes of an error reply: next to the positive indication (either order), after a warning, *)
                (* with the base namespace bound to a prefix                                                       *)
                "error+ok", "ok+error", "warning+error", "prefixed-error",
+               (* ... with warnings after the error; with the other error-tags of RFC 6241 appendix A; results that count *)
+               (* zero errors and say nothing else                                                                       *)
+               "error+warning", "error+warning+warning", "tag:data-missing", "tag:data-exists", "tag:in-use", "tag:access-denied",
+               "tag:unknown-element", "no-ok-count0",
                (* not a fault: a positive reply that is overtaken by the reply to the next request *)
                "late-ok"}
 FaultCases ==
@@ -35,6 +39,7 @@ FaultCases ==
 FaultOk(c) == /\ (c.target = "load" => c.index <= c.n)
               /\ (c.kind = "delayed-error" => c.index < c.n)        \* released by a later load
               /\ (c.kind = "no-ok" => c.target \in {"load", "commit", "close-session"})
+              /\ (c.kind = "no-ok-count0" => c.target = "load")
               /\ (c.kind = "junos-error" => c.target = "commit")     \* <commit-results> with the error inside <routing-engine>
 
 (* C03 / C15: evaluation outcome classes of a policy, and whether it is installed already *)
@@ -60,8 +65,12 @@ Body == {"reject", "terms+reject", "accept", "empty",
          (* other content that is deactivated is other content all the same *)
          "reject+inactive-term", "inactive-term+reject"}
 AttrOrder == {"comment-first", "active-first"}
-Shapes == {[active |-> a, comment |-> c, body |-> b, order |-> o, dupxmlns |-> d, extra |-> x] :
+(* the prefix the jcmd namespace is bound to: as Junos writes it, another one, two prefixes for the one namespace *)
+NsPrefix == {"jcmd", "other", "two"}
+Shapes == {[active |-> a, comment |-> c, body |-> b, order |-> o, dupxmlns |-> d, extra |-> x, nspfx |-> "jcmd"] :
              a \in Active, c \in Comment, b \in Body, o \in AttrOrder, d \in BOOLEAN, x \in BOOLEAN}
+          \cup {[active |-> a, comment |-> c, body |-> b, order |-> o, dupxmlns |-> FALSE, extra |-> FALSE, nspfx |-> n] :
+             a \in Active, c \in {"none", "fltr", "fltr-bad", "other"}, b \in {"reject", "terms+reject"}, o \in AttrOrder, n \in NsPrefix \ {"jcmd"}}
 ParseableComment(c) == c \in {"fltr", "fltr-nospace", "fltr-bare", "fltr-doublestar", "fltr-slashes", "fltr-unterminated",
                               "fltr-wrapped", "fltr-wrapped-after-op", "fltr-wrapped-plus"}
 MarkedComment(c) == ParseableComment(c) \/ c \in {"fltr-bad", "fltr-empty"}
@@ -85,6 +94,8 @@ StyleCases == (IF Depth = 0 THEN {{}} \cup {{f} : f \in StyleFlags} \cup {StyleF
                ELSE SUBSET StyleFlags)
               (* a comment in the middle of token-valued text (names, prefixes, ranges), on its own *)
               \cup {{"cmtmid"}}
+              (* the jcmd prefix declared once on the root instead of on every statement; CR LF and bare CR line ends *)
+              \cup {{"nsup"}, {"nsup", "pfx"}, {"nsup", "attr"}, {"crlf", "ws"}, {"crlf", "ws", "pad"}, {"cr", "ws", "pad"}, {"cr", "pad"}}
 
 (* C14 for the agent: every positive reply of the router damaged in every way of the mutation grammar *)
 Mutations == {"trunc-half", "trunc-tag", "trunc-attr", "dup-statement", "dup-name", "dup-root", "huge-int", "range-reversed",
